@@ -16,6 +16,10 @@ func init() {
 			// the extension helpers that block on a correlated reply
 			c15.RunWaits(r)
 			c18.RunWaits(r)
+			// round C: bounded-exhaustive wait histories of both helpers (files of the C06
+			// builder inside the two packages)
+			c15.RunC06Listener(r)
+			c18.RunC06Waits(r)
 		}
 		return nil
 	}
